@@ -386,6 +386,45 @@ theorem once_only_string (P : Prims) (h : Handler) (objid genno : Nat) (b : Byte
   | nil => exact absurd rfl hb
   | cons x xs => simp [getobj, decipherAll]
 
+/-- **Deciphered exactly once, as a trace**: a first `getobj` of a direct object (any nesting
+    depth of arrays / dictionaries, strings inside a stream dictionary, the stream payload) makes
+    exactly the cipher calls `expectedCalls o` - each non-empty string once, the payload once,
+    nothing for a cross-reference stream - and returns the pure model's result. -/
+theorem once_only_trace (P : Prims) (h : Handler) (caching : Bool) (objid genno : Nat) (o : Obj) :
+    (getobjSt P h caching {} .direct objid genno o).1 = getobj P h .direct objid genno o ∧
+    (getobjSt P h caching {} .direct objid genno o).2.2 = expectedCalls o := by
+  simp [getobjSt, cacheLookup, getobj, decipherAllT_spec]
+
+/-- Members of object streams, the trailer and the Encrypt dictionary: zero cipher calls. -/
+theorem once_only_trace_elsewhere (P : Prims) (h : Handler) (caching : Bool) (st : DocState) (loc : Loc)
+    (objid genno : Nat) (o : Obj) (hl : loc ≠ .direct) (hc : cacheLookup objid st.cache = none) :
+    (getobjSt P h caching st loc objid genno o).1 = o ∧
+    (getobjSt P h caching st loc objid genno o).2.2 = [] := by
+  cases loc <;> first | exact absurd rfl hl | simp [getobjSt, hc]
+
+/-- State carried across calls: with the cache on, a second `getobj` of the same object returns
+    the same object and makes **no** cipher call (the cached object is not deciphered again). -/
+theorem once_only_second_read_cached (P : Prims) (h : Handler) (loc : Loc) (objid genno : Nat) (o : Obj) :
+    let r1 := getobjSt P h true {} loc objid genno o
+    let r2 := getobjSt P h true r1.2.1 loc objid genno o
+    r2.1 = r1.1 ∧ r2.2.2 = [] ∧ r2.2.1.cache = r1.2.1.cache := by
+  simp [getobjSt, cacheLookup]
+
+/-- With the cache off the object is parsed again from the stored bytes and deciphered afresh:
+    same result, same calls - never a decryption of an already decrypted object. -/
+theorem once_only_second_read_uncached (P : Prims) (h : Handler) (loc : Loc) (objid genno : Nat) (o : Obj) :
+    let r1 := getobjSt P h false {} loc objid genno o
+    let r2 := getobjSt P h false r1.2.1 loc objid genno o
+    r2 = r1 := by
+  simp [getobjSt, cacheLookup]
+
+/-- Non-vacuity of the trace statement: a dictionary holding an array holding a dictionary, an
+    empty string, and a stream with a string in its dictionary - four calls, in traversal order. -/
+example :
+    expectedCalls (.dict [([65], .arr [.str [1], .dict [([66], .str [2, 3])], .str []]),
+                          ([67], .stream [([68], .str [4])] [9, 9])])
+      = [.str [1], .str [2, 3], .str [4], .payload false [9, 9]] := by decide
+
 /-! ## permissions -/
 
 /-- print / modify / extract are bits 3 / 4 / 5 of P (values 4, 8, 16) of the stored value. -/
